@@ -435,6 +435,17 @@ def check(ctx):
     check_dispatch(ctx, f)
     check_results(ctx)
     check_shapes(ctx)
+    # first-row clause: the row at the initial time is the initial condition with the rules applied - it needs the rules to run first in
+    # an iteration (C09 R9.3) and the rows to be recorded before the state is updated (C05 R5.2); both are re-emitted here.
+    from ..core import SubCtx
+    from . import c05, c09
+    sub = SubCtx(ctx)
+    for key in ('SSASimulator', 'DelaySSASimulator', 'VolumeSSASimulator', 'DelayVolumeSSASimulator'):
+        c05.check_loop(sub, key)
+        c09.check_loop(sub, key)
+    for rule, key, ok, where, what, detail in sub.got:
+        if rule in ('R5.2-record-before-update', 'R5.2-record-condition', 'R9.3-rules-first'):
+            ctx.ob('R7.4-first-row', '%s/%s' % (rule, key), ok, where, what, detail)
     ctx.floor('R7.1-option-lattice', 256)
     ctx.floor('R7.2-concrete-simulator', 5)
     ctx.floor('R7.3-constructor', 8)
